@@ -20,6 +20,7 @@ def optPair (j : Json) (k : String) : Except String (Option (Int × Int)) :=
 def parseLit (j : Json) : Except String Lit :=
   match j with
   | .null => pure .none
+  | .str "pending" => pure .pending
   | .arr _ => do return .list (← ints j)
   | _ => do return .int (← j.getInt?)
 
@@ -35,7 +36,8 @@ def parseDecl (j : Json) : Except String Decl := do
            boundsTup := ← optPair j "btup", boundsList := ← optPair j "blist",
            objects := ← (match getOpt j "objects" with
                          | some o => do return some (← ints o)
-                         | none => pure none) }
+                         | none => pure none),
+           allowRefs := (getOpt j "refs").bind (·.getBool?.toOption) |>.getD false }
 
 def parseTarget (j : Json) : Except String Target := do
   let a ← j.getArr?
@@ -81,6 +83,7 @@ def parseOp (j : Json) : Except String Op := do
   | "mutVal" => return .mutVal (← parseTarget (← j.getObjVal? "t")) (← getNat j "x") (← getInt j "v")
   | "access" => return .access (← getNat j "i") (← getNat j "x")
   | "slotSet" => return .slotSet (← parseTarget (← j.getObjVal? "t")) (← getNat j "x") (← parseSlotSet (← j.getObjVal? "s"))
+  | "sharedFail" => return .sharedFail
   | "slotMut" => return .slotMut (← parseTarget (← j.getObjVal? "t")) (← getNat j "x") (← parseSlotMut (← j.getObjVal? "m"))
   | o => throw s!"unknown op {o}"
 
@@ -107,7 +110,7 @@ def jOwner : Owner → Json
 def jP (p : OPObj) : Json := Json.mkObj [
   ("kind", Json.str (kindName p.kind)), ("owner", jOwner p.owner), ("default", jVal p.default),
   ("inst", Json.bool p.instantiate), ("const", Json.bool p.constant), ("pi", Json.bool p.perInstance),
-  ("cos", Json.bool p.checkOnSet), ("prec", jOpt toJson p.precedence), ("btup", jOpt jPair p.boundsTup),
+  ("cos", Json.bool p.checkOnSet), ("refs", Json.bool p.allowRefs), ("prec", jOpt toJson p.precedence), ("btup", jOpt jPair p.boundsTup),
   ("ms", Json.arr (p.mslots.map fun (s, c, l) =>
       Json.arr #[Json.str (slotName s), Json.mkObj [("c", toJson c), ("v", jInts l)]]).toArray)]
 
@@ -144,7 +147,7 @@ def pP (j : Json) : Except String OPObj := do
     return (← pSlot (← a[0]!.getStr?), ← getNat a[1]! "c", ← ints (← a[1]!.getObjVal? "v"))
   return { kind := ← parseKind (← getStr j "kind"), owner := ← pOwner (← j.getObjVal? "owner"),
            default := ← pVal (← j.getObjVal? "default"), instantiate := ← getBool j "inst",
-           constant := ← getBool j "const", perInstance := ← getBool j "pi", checkOnSet := ← getBool j "cos",
+           constant := ← getBool j "const", perInstance := ← getBool j "pi", checkOnSet := ← getBool j "cos", allowRefs := ← getBool j "refs",
            precedence := (getOpt j "prec").bind (·.getInt?.toOption), boundsTup := ← optPair j "btup",
            mslots := ms }
 
@@ -172,7 +175,7 @@ def targetTag : Target → String
 
 def opTag (w : World) : Op → String
   | .mkClass mro _ => if mro.isEmpty then "mkClass:root" else "mkClass:sub"
-  | .mkInst _ kw => if kw.isEmpty then "mkInst:plain" else "mkInst:kwargs"
+  | .mkInst _ kw => if kw.any (·.2.isPending) then "mkInst:pending-ref" else if kw.isEmpty then "mkInst:plain" else "mkInst:kwargs"
   | .setVal (.cls k) x _ =>
     match w.resolve k x with
     | some (k', _) => if k' = k then "setVal:cls:own" else "setVal:cls:copy-on-write"
@@ -199,6 +202,7 @@ def opTag (w : World) : Op → String
     let mn := match m with
       | .objectsAppend _ => "objectsAppend" | .namesInsert _ => "namesInsert" | .boundsSetHi _ => "boundsSetHi"
     s!"slotMut:{targetTag t}:{mn}"
+  | .sharedFail => "sharedFail"
 
 /-- instances are named in a case by *creation attempt*; a failed construction uses up a number -/
 def mapTarget (amap : List (Option Nat)) : Target → Option Target
